@@ -733,8 +733,9 @@ class GeoBox(GeoBoxBase):
         """
         nx, ny = self._shape.xy
         x0, y0, x1, y1 = map(int, bounding_box_in_pixel_domain(other, self, tol))
-        x0, y0 = max(0, x0), max(0, y0)
-        x1, y1 = min(x1, nx), min(y1, ny)
+        # clamp to this geobox: no overlap is an empty slice, never a from-the-end one
+        x0, y0 = min(max(0, x0), nx), min(max(0, y0), ny)
+        x1, y1 = max(min(x1, nx), x0), max(min(y1, ny), y0)
         return numpy.s_[y0:y1, x0:x1]
 
     @property
